@@ -542,3 +542,5 @@ CHECKS["C10"]["required_classes"]["all"] += ["fd-exhaustion-spike"]
 
 CHECKS["C14"]["jobs"].append(J("concurrent", VSTORE, "TestC14ConcurrentWrites", {"shards": 2, "checks": 40}, {"shards": 8, "checks": 1000}))
 CHECKS["C14"]["required_classes"]["all"] += ["concurrent-writers"]
+
+CHECKS["C18"]["required_classes"]["all"] += ["reload:upgrades=local"]
